@@ -37,12 +37,12 @@ type Timing struct {
 }
 
 type Res struct {
-	Kind     string   `json:"kind"`
-	Detail   string   `json:"detail"`
-	Timings  []Timing `json:"timings"`
-	Problem  string   `json:"problem,omitempty"`
-	Class    string   `json:"class,omitempty"`
-	Harness  string   `json:"harness,omitempty"`
+	Kind    string   `json:"kind"`
+	Detail  string   `json:"detail"`
+	Timings []Timing `json:"timings"`
+	Problem string   `json:"problem,omitempty"`
+	Class   string   `json:"class,omitempty"`
+	Harness string   `json:"harness,omitempty"`
 }
 
 // timedCommit runs Commit in a goroutine and waits at most giveUp.
@@ -62,7 +62,7 @@ func timedCommit(id string, t sop.Transaction, ctx context.Context) Timing {
 	}
 }
 
-var kinds = []string{"contention", "contention-opposite-order", "stalled-holder", "dead-holder", "caller-deadline", "racing-first-root"}
+var kinds = []string{"contention", "contention-opposite-order", "stalled-holder", "dead-holder", "caller-deadline", "racing-first-root", "dead-holder-expiry"}
 
 func scenario(i int, seed int64, _ []string) any {
 	mirror.InstallGlobals()
@@ -139,6 +139,60 @@ func scenario(i int, seed int64, _ []string) any {
 			go writer(fmt.Sprintf("W%d", w), ks, kind == "caller-deadline")
 		}
 		wg.Wait()
+	case "dead-holder-expiry":
+		// a holder with a SHORT maximum commit time (3 s) takes its item locks and then never moves again;
+		// fresh writers keep contending for one of its items back to back. The holder's locks carry its
+		// maximum commit time as TTL, so some contender must get through within TTL + allowance - contention
+		// itself must not keep a dead holder's locks alive.
+		const holderTTL = 3 * time.Second
+		mir := txn.Mirror{Dir: dir}
+		ht, err := mir.Begin(sop.ForWriting, holderTTL)
+		if err != nil {
+			res.Harness = err.Error()
+			return res
+		}
+		prog := txn.Program{Ops: []txn.Op{{Store: "s", Kind: "upsert", K: keys[0], V: "H"}, {Store: "s", Kind: "upsert", K: keys[1], V: "H"}}}
+		if _, err := txn.Run(mir, ht, prog); err != nil {
+			res.Harness = err.Error()
+			return res
+		}
+		// the first l2.Lock of a commit is the node-keys lock, taken right after the item locks
+		holderPlan = deco.NewPlan("l2.Lock", 1, deco.Pause)
+		holderPlan.NoTrace = true
+		res.Detail += " holder (maxTime 3 s) parked at its node-keys lock, after its item locks"
+		deco.Install(holderPlan)
+		holderPlan.Arm()
+		go func() { ht.Commit(conc.Ctx) }()
+		select {
+		case <-holderPlan.Paused:
+		case <-time.After(20 * time.Second):
+			res.Harness = "holder never parked"
+			deco.Install(nil)
+			return res
+		}
+		parked := time.Now()
+		okAfter := time.Duration(-1)
+		attempts := 0
+		for time.Since(parked) < holderTTL+12*time.Second {
+			attempts++
+			wg.Add(1)
+			before := len(res.Timings)
+			writer(fmt.Sprintf("C%d", attempts), keys[:1], false)
+			if len(res.Timings) > before {
+				f := res.Timings[len(res.Timings)-1]
+				if f.Returned && f.Err == "" {
+					okAfter = time.Since(parked)
+					break
+				}
+			}
+			time.Sleep(100 * time.Millisecond)
+		}
+		holderPlan.Disarm()
+		deco.Install(nil)
+		res.Detail += fmt.Sprintf("; %d contending commits, first success %.1f s after the holder parked", attempts, okAfter.Seconds())
+		if okAfter < 0 {
+			res.Class, res.Problem = "dead-holders-locks-outlive-their-ttl-under-contention", fmt.Sprintf("%d back-to-back writers of one item of a dead holder (lock TTL = its maximum commit time, 3 s) all failed for %.0f s", attempts, (holderTTL+12*time.Second).Seconds())
+		}
 	case "stalled-holder", "dead-holder":
 		// the holder takes its item and node locks, then parks inside its commit
 		mir := txn.Mirror{Dir: dir}
@@ -250,6 +304,6 @@ func Run(r *report.Run) int {
 	return r.Finish(rule, assumptions, 6)
 }
 
-const rule = "contention scenarios through the public path with maxTime 2 s: 2-6 writers upserting overlapping key sets (same and opposite order), writers with a 1 s caller deadline, racing first-root creators on an empty store, writers contending with a holder that is parked inside its commit after taking its locks (mirror path pause plan) and either resumes later (then a follow-up transaction on the same keys must succeed) or never does; every Commit is timed; violated only when a Commit returns later than budget + 15 s allowance or has not returned 20 s after the call (a real hang or a wait for a lock TTL exceeds that by orders of magnitude); at most 4 scenarios run at a time; fingerprint = (kind, configuration, writers); non-trivial = at least one Commit was timed"
+const rule = "contention scenarios through the public path with maxTime 2 s: 2-6 writers upserting overlapping key sets (same and opposite order), writers with a 1 s caller deadline, racing first-root creators on an empty store, writers contending with a holder that is parked inside its commit after taking its locks (mirror path pause plan) and either resumes later (then a follow-up transaction on the same keys must succeed) or never does; a dead holder with a 3 s maximum commit time whose item is contended back to back (some contender must commit within TTL + 12 s: contention must not keep a dead holder's locks alive); every Commit is timed; violated only when a Commit returns later than budget + 15 s allowance or has not returned 20 s after the call (a real hang or a wait for a lock TTL exceeds that by orders of magnitude); at most 4 scenarios run at a time; fingerprint = (kind, configuration, writers); non-trivial = at least one Commit was timed"
 
-var assumptions = []string{"the property's statement is a wall-clock bound: a generous allowance and low harness load keep a slow machine from raising alarms", "standalone in-memory L2", "a dead holder's locks are not expected to be released before their TTL"}
+var assumptions = []string{"the property's statement is a wall-clock bound: a generous allowance and low harness load keep a slow machine from raising alarms", "standalone in-memory L2", "a dead holder's locks are not expected to be released before their TTL (= its maximum commit time), and are expected to be gone after it"}
